@@ -165,7 +165,8 @@ def maybe_view(rng, a, p=0.3, kinds=None):
 # first element after a boundary.  BIG_SIZES are lengths just past powers of two and round decimal numbers up to a few
 # million, and exact multiples of both; windows() picks the places to look at.
 
-BIG_SIZES = [2 ** 20 + 37, 2 ** 21 + 1, 2 ** 22 + 5, 2 ** 22 + 2 ** 20, 10 ** 6, 5 * 10 ** 5, 15 * 10 ** 5, 2 * 10 ** 6 + 1, 25 * 10 ** 5 + 1, 5 * 10 ** 6 + 3]
+BIG_SIZES = [2 ** 20 + 37, 2 ** 21 + 1, 2 ** 22 + 5, 2 ** 22 + 2 ** 20, 10 ** 6, 5 * 10 ** 5, 15 * 10 ** 5, 2 * 10 ** 6 + 1, 25 * 10 ** 5 + 1, 5 * 10 ** 6 + 3,
+             2 ** 23 + 1000, 10 ** 7 + 1]
 
 
 def big_size(rng, cap=None, first=False):
@@ -178,7 +179,7 @@ def windows(rng, n, width=64, extra=12):
     """index windows (start, stop) of a length-n array: head, tail, around every multiple of 2^16 .. 2^22 and of
     100000 that a blocked loop might use as boundary (a sample of them), and a few random places"""
     marks = {0, n}
-    for k in range(16, 23):
+    for k in range(16, 24):
         b = 2 ** k
         ms = list(range(b, n, b))
         for m in (ms if len(ms) <= 6 else [ms[0], ms[-1]] + [ms[int(i)] for i in rng.integers(0, len(ms), size=4)]):
